@@ -290,11 +290,54 @@ def r3_4(repo: Repo) -> RuleResult:
     return rr
 
 
-RULES = [r3_1, r3_2, r3_3, r3_4]
+def r3_5(repo: Repo) -> RuleResult:
+    rr = RuleResult("R3.5", "window_at_index returns exactly window_size neighbours on the chosen side, nearest first", floor=2)
+    f = repo.func(WK, "window_at_index")
+    seq, size, ind = f.params[0], f.params[1], f.params[2]
+    rets = [n for n in walk_no_nested(f.node) if isinstance(n, ast.Return)]
+    if len(rets) != 2:
+        raise AnalysisError("R3.5: window_at_index no longer has one return per direction")
+
+    def strip(e: ast.AST) -> ast.AST:
+        # min(x, len(seq)) / max(x, 0) -> x
+        if isinstance(e, ast.Call) and norm(e.func) in ("min", "max") and len(e.args) == 2:
+            for a in e.args:
+                if not (isinstance(a, ast.Constant) or norm(a) == "len(%s)" % seq):
+                    return a
+        return e
+
+    for r in rets:
+        slices = [n for n in ast.walk(r.value) if isinstance(n, ast.Subscript) and isinstance(n.slice, ast.Slice) and norm(n.value) == seq]
+        if len(slices) != 1:
+            raise AnalysisError("R3.5: window slice not recognised in `%s`" % short(r.value))
+        sl = slices[0].slice
+        lo, hi = strip(sl.lower), strip(sl.upper)
+        width = sym.sub(sym.poly(hi), sym.poly(lo))
+        before = sym.poly(hi) == sym.poly(ast.parse(ind, mode="eval").body)
+        after = sym.poly(lo) == sym.poly(ast.parse("%s + 1" % ind, mode="eval").body)
+        flipped = isinstance(r.value, ast.Call) and repo.canonical(f.module, r.value.func) in ("numpy.flipud", "numpy.flip")
+        construct = "%s window" % ("before" if before else "after" if after else "?")
+        problems = []
+        if width != sym.poly(ast.parse(size, mode="eval").body):
+            problems.append("slice [%s, %s) has %s elements, not %s" % (norm(lo), norm(hi), sym.show(width), size))
+        if not (before or after):
+            problems.append("the slice neither ends at the index nor starts right after it (the target token would be inside / a neighbour skipped)")
+        if before and not flipped:
+            problems.append("the window before the index is not reversed: kernels weight position 0 as the nearest neighbour")
+        if after and flipped:
+            problems.append("the window after the index is reversed")
+        if problems:
+            rr.bad(f, construct, "; ".join(problems), r.lineno)
+        else:
+            rr.ok(f, construct, "`%s`: %s elements adjacent to the index, nearest first" % (short(r.value, 70), size), r.lineno)
+    return rr
+
+
+RULES = [r3_1, r3_2, r3_3, r3_4, r3_5]
 CLAIM = (
     "R3.1 precision flow: no absolute timestamp is narrowed to float32 before the time difference is formed; R3.2 the three tables "
     "(orientation -> reversal flags, orientation -> column prefixes, reversal flag -> before/after in window_at_index) agree; R3.3 "
     "positional kernel / window argument packing matches the parameter order of every function in each class's registry; R3.4 "
-    "window slices have non-negative lower bounds (clamp or range proof)."
+    "window slices have non-negative lower bounds (clamp or range proof); R3.5 window_at_index takes exactly window_size neighbours adjacent to the index on the chosen side, nearest first."
 )
 NOT_DECIDED = "the numerical definition itself: kernel formulas, per-occurrence sums, window normalisation totals, the transpose identity."
